@@ -150,6 +150,12 @@ func c01Structured() []kindDef {
 			kindDef{name: "oneof-ref-" + oc.name, mk: func() *dialect.Schema { return &dialect.Schema{Ref: "One"} }, comp: []dialect.Prop{pet, varA, varB, one}},
 			kindDef{name: "oneof-inline-" + oc.name, mk: func() *dialect.Schema { return oneOfAB(oc.disc, oc.mapping) }, comp: []dialect.Prop{pet, varA, varB}})
 	}
+	// a date-time variant, in place and as a component (refused by the generator)
+	ks = append(ks, kindDef{name: "oneof-datetime-inline", mk: func() *dialect.Schema {
+		return &dialect.Schema{OneOf: []*dialect.Schema{{Type: "string", Format: "date-time"}, {Type: "integer"}}}
+	}}, kindDef{name: "oneof-datetime-ref", mk: func() *dialect.Schema {
+		return &dialect.Schema{OneOf: []*dialect.Schema{{Ref: "Stamp"}, {Ref: "Pet"}}}
+	}, comp: []dialect.Prop{pet, timeComp}})
 	ks = append(ks, kindDef{name: "oneof-prims", mk: func() *dialect.Schema {
 		return &dialect.Schema{OneOf: []*dialect.Schema{{Type: "string"}, {Type: "integer"}, objAB()}}
 	}})
